@@ -343,6 +343,22 @@ func checkC04(r *vlib.Run) int {
 			return randOpts{nsess: 2 + rng.Intn(5), maxEvents: 8, cleanups: "mixed", uncorrelated: true}
 		}}
 	st, evals := runCorr(r, cfg)
+	// last clause of the statement: whatever is emitted after a session's
+	// CRED_DISP carries that session's own identity - a foreign identity can
+	// only get there through PID reuse, so the reuse histories run here too.
+	jobs := reuseJobs(vlib.NewDistinct())
+	var postEnd int64
+	parallelDo(len(jobs), func(i int) {
+		res := apiExec{}.run(jobs[i].plan, jobs[i].ops)
+		for _, e := range res.emitted {
+			atomic.AddInt64(&postEnd, int64(len(e)))
+		}
+		if fs := checkHistory(jobs[i].plan, jobs[i].ops, res, true); len(fs) > 0 {
+			reportFindings(r, st, "C04", fs, jobs[i].plan, jobs[i].ops, "api-reuse")
+		}
+	})
+	evals += len(jobs)
+	r.Set("pid_reuse_histories_for_the_post_end_clause", len(jobs))
 	r.Set("uncorrelated_events_delivered", st.uncorrSent)
 	for _, k := range []string{opNoSess, opUnset, opUnknown, opStartOpen} {
 		r.Require(st.uncorrSent[k] > 0, "no "+k+" event was delivered")
